@@ -204,6 +204,8 @@ theorem pairsBytes_spOp (f : SpOp) (hf : f.WF) (p : Params) (h : PairsBytes p.li
     · exact this
   | del n => exact fun x hx => h x (List.mem_filter.1 hx).1
   | del2 n v => exact fun x hx => h x (List.mem_filter.1 hx).1
+  | remove n => exact fun x hx => h x (List.mem_filter.1 hx).1
+  | remove2 n v => exact fun x hx => h x (List.mem_filter.1 hx).1
   | sort =>
     show PairsBytes p.sort.list
     unfold Params.sort
@@ -596,6 +598,18 @@ theorem sim_spApply {idna : Idna} {st : Bool} {ro : RObj} {o : UrlObj} (h : SimS
     · exact sim_update hn
     · exact hn
 
+/-- `search_params() &&`: the owned list is moved out on both levels, the record is not touched -/
+theorem sim_searchParamsRvalue {idna : Idna} {st : Bool} {ro : RObj} {o : UrlObj} (h : SimS idna st ro o) :
+    SimS idna st ro.searchParamsRvalue (uSearchParamsRvalue o) := by
+  obtain ⟨a, sp⟩ := ro
+  obtain ⟨b, sp'⟩ := o
+  obtain ⟨h1, h2, h3⟩ := h
+  simp only at h1 h2 h3
+  subst h1
+  cases sp with
+  | none => exact ⟨rfl, h2, h3⟩
+  | some p => exact sim_mk h3 (spBytes_some pairsBytes_nil)
+
 /-! ## copy / move -/
 
 theorem sim_copyAssign {idna : Idna} {st : Bool} {rd rs : RObj} {d s : UrlObj} (hd : SimS idna st rd d) (hs : SimS idna st rs s) :
@@ -669,7 +683,9 @@ theorem sim_step {idna : Idna} {st : Bool} (hi : IdnaStable idna) (op : Op) (hop
       simp only at hf1 hf2
       subst hf2
       cases xb with
-      | false => exact ⟨sim₂_set h k hk, rfl⟩
+      | false =>
+        obtain ⟨a, b⟩ := sim_parse hi hk e units (BaseSimS.obj (recSim_none idna st))
+        exact ⟨sim₂_set h k a, b⟩
       | true =>
         obtain ⟨a, b⟩ := sim_parse hi hk e units (BaseSimS.obj hf1.2.2)
         exact ⟨sim₂_set h k a, b⟩
@@ -684,7 +700,16 @@ theorem sim_step {idna : Idna} {st : Bool} (hi : IdnaStable idna) (op : Op) (hop
     exact ⟨sim₂_set h k a, b⟩
   | searchParams k => exact ⟨sim₂_set h k (sim_searchParams (sim₂_get h k)), rfl⟩
   | sp k f =>
-    exact ⟨sim₂_set h k (sim_spApply (sim₂_get h k) f.fn (pairsBytes_spOp f hop) true), rfl⟩
+    exact ⟨sim₂_set h k (sim_spApply (sim₂_get h k) f.fn (pairsBytes_spOp f hop) f.always), rfl⟩
+  | spAssign k list sorted =>
+    have hl : PairsBytes list := hop
+    exact ⟨sim₂_set h k (sim_spApply (sim₂_get h k) (fun _ => { list := list, isSorted := sorted })
+      (fun _ _ => hl) true), rfl⟩
+  | spSafeAssign k list sorted =>
+    have hl : PairsBytes list := hop
+    exact ⟨sim₂_set h k (sim_spApply (sim₂_get h k) (fun _ => { list := list, isSorted := sorted })
+      (fun _ _ => hl) true), rfl⟩
+  | searchParamsRvalue k => exact ⟨sim₂_set h k (sim_searchParamsRvalue (sim₂_get h k)), rfl⟩
   | clear k => exact ⟨sim₂_set h k (sim_clear (sim₂_get h k)), rfl⟩
   | copyAssign d s =>
     simp only [stepR, stepU]
